@@ -21,7 +21,8 @@ Definition E_SYSCALL := 5. Definition E_ZERO_RETURN := 6.
 Definition EIO := 5.       (* the errno the scripted engine leaves behind for SSL_ERROR_SYSCALL *)
 
 Definition tls0 : tlsst :=
-  {| t_last := 0; t_isr := false; t_isw := false; t_supp := false; t_init := false; t_pend := -1; t_rem := 0 |}.
+  {| t_last := 0; t_isr := false; t_isw := false; t_supp := false; t_init := false; t_pend := -1; t_rem := 0;
+     t_server := false; t_started := false |}.
 
 Definition get_tls (k : Z) : MX tlsst :=
   x <- get_ext ;; match aget k (x_tls x) with Some t => ret t | None => bad 140 end.
@@ -87,9 +88,10 @@ Fixpoint run_bios (k : Z) (n : nat) (args : list Z) : MX Z :=
         if negb (w =? size) then ret E_WANT_WRITE else run_bios k n' rest
   end.
 
-(* call: 1 SSL_read(size) 2 SSL_write_ex(size) 3 SSL_shutdown; returns (res, SSL_get_error) *)
+(* call: 1 SSL_read(size) 2 SSL_write_ex(size) 3 SSL_shutdown 4 SSL_do_handshake; returns (res, SSL_get_error) *)
 Definition engine (k call size : Z) : MX (Z * Z) :=
   emit K_ENGCALL [call; size] ;;;
+  upd_tls k (fun t => t <| t_started := true |>) ;;;
   x <- get_ext ;;
   match x_eng x with
   | (8, call' :: nbio :: rest) :: tl =>
@@ -104,6 +106,8 @@ Definition engine (k call size : Z) : MX (Z * Z) :=
            ret (res, err)
   | _ => bad 8
   end.
+
+Definition STEPS_MAX : nat := 10.
 
 (* ---- error handling ----------------------------------------------------------------------------------------------- *)
 Definition handle_error (k err : Z) : MX bool :=
@@ -125,8 +129,6 @@ Definition handle_result (k err : Z) : MX bool :=
   upd_tls k (fun t => t <| t_last := err |>) ;;; handle_last_error k.
 
 (* ---- Read / Write: loops over engine calls that may perform the handshake at any time ------------------------ *)
-Definition STEPS_MAX : nat := 10.
-
 Fixpoint read_loop (fuel : nat) (k size : Z) : MX Z :=
   match fuel with
   | O => ret 0
@@ -198,20 +200,33 @@ Definition tls_send_some (k size : Z) : MX Z :=
 (* DriverQuery(events) *)
 Definition tls_query (t : tlsst) (events : Z) : tlsst * Z :=
   if negb (t_init t) then
-    if t_last t =? E_WANT_WRITE then (t, Z.lor events POLLOUT)
+    (* a pending handshake write — or a client whose handshake has not started: nobody else would write its first flight *)
+    if (t_last t =? E_WANT_WRITE) || ((t_last t =? E_NONE) && negb (t_started t) && negb (t_server t))
+    then (t, Z.lor events POLLOUT)
     else if t_last t =? E_WANT_READ then
       (t <| t_supp := t_supp t || has_bit events POLLOUT |>, Z.land events (Z.lnot POLLOUT))
     else (t, events)
   else if t_supp t then (t <| t_supp := false |>, Z.lor events POLLOUT)
   else (t, events).
 
-(* DriverPending() *)
+(* DriverPending(): advance the handshake only (SSL_do_handshake, retried while the wait for its WANT_READ / WANT_WRITE
+   succeeds at once); user data stays queued for the next Receive *)
+Fixpoint handshake_loop (fuel : nat) (k : Z) : MX unit :=
+  match fuel with
+  | O => ret tt
+  | S f => r <- engine k 4 0 ;;
+           if 0 <? fst r then ret tt
+           else ok <- handle_result k (snd r) ;;
+                if negb ok then ret tt
+                else match f with O => stuck 46 | _ => handshake_loop f k end     (* assert(i < handshakeStepsMax) *)
+  end.
+
 Definition tls_pending (k : Z) : MX unit :=
   t <- get_tls k ;;
   if t_init t then ret tt else
   put_tls k (t <| t_rem := 0 |> <| t_isw := true |> <| t_last := if t_last t =? E_WANT_WRITE then E_NONE else t_last t |>) ;;;
-  n <- tls_read k 64 ;;
-  if 0 <? n then throw (LogicErr 8) else ret tt.             (* "unexpected recceive" *)
+  ok <- handle_last_error k ;;
+  if ok then handshake_loop STEPS_MAX k else ret tt.
 
 (* Shutdown() *)
 Fixpoint shutdown_loop (fuel : nat) (k : Z) : MX unit :=
